@@ -338,19 +338,19 @@ theorem flattenAnonPointer_fresh (fc : Facts) (hf : C03.FactsOK fc) (x : Ext) (o
       show FreshExt (foldOf x) (defNames st.doc) (defNames d)
       rw [updateRefWithSchema_defNames _ _ _ _ h1]; exact FreshExt.refl _
 
-/-- C03, pointer phase: `namePointers` too only appends definitions under fresh names -/
-theorem namePointers_fresh (fc : Facts) (hf : C03.FactsOK fc) (x : Ext) (o : Opts) (s s' : St)
-    (h : namePointers fc x o s = .ok s') :
-    FreshExt (foldOf x) (defNames s.doc) (defNames s'.doc) := by
-  unfold namePointers at h
+theorem namePointersPass_fresh (fc : Facts) (hf : C03.FactsOK fc) (x : Ext) (o : Opts) (s : St) (r : St × Bool)
+    (h : namePointersPass fc x o s = .ok r) :
+    FreshExt (foldOf x) (defNames s.doc) (defNames r.1.doc) := by
+  unfold namePointersPass at h
   obtain ⟨plans, _, h⟩ := bind_eq_ok.1 h
   obtain ⟨ops, _, h⟩ := bind_eq_ok.1 h
-  obtain ⟨⟨s1, pl⟩, h1, h⟩ := bind_eq_ok.1 h
+  obtain ⟨⟨⟨s1, pl⟩, rp⟩, h1, h⟩ := bind_eq_ok.1 h
   simp only [pure_eq_ok] at h
   subst h
   show FreshExt (foldOf x) (defNames s.doc) (defNames s1.doc)
-  have := foldlM_inv (fun a : St × List (String × PtrPlan) => FreshExt (foldOf x) (defNames s.doc) (defNames a.1.doc))
-    _ ?_ _ (s, plans) (s1, pl) (FreshExt.refl _) h1
+  have := foldlM_inv (fun a : (St × List (String × PtrPlan)) × Bool =>
+      FreshExt (foldOf x) (defNames s.doc) (defNames a.1.1.doc))
+    _ ?_ _ ((s, plans), false) ((s1, pl), rp) (FreshExt.refl _) h1
   · exact this
   intro acc key acc' hs hstep
   split at hstep
@@ -362,6 +362,29 @@ theorem namePointers_fresh (fc : Facts) (hf : C03.FactsOK fc) (x : Ext) (o : Opt
       simp only [pure_eq_ok] at hstep; subst hstep
       show FreshExt (foldOf x) (defNames s.doc) (defNames d)
       rw [updateRef_defNames _ _ _ _ hd]; exact hs
-    · exact hs.trans (flattenAnonPointer_fresh fc hf x o _ _ _ _ _ _ hstep)
+    · obtain ⟨r', hr', hstep⟩ := bind_eq_ok.1 hstep
+      simp only [pure_eq_ok] at hstep; subst hstep
+      exact hs.trans (flattenAnonPointer_fresh fc hf x o _ _ _ _ _ _ hr')
+
+theorem namePointersLoop_fresh (fc : Facts) (hf : C03.FactsOK fc) (x : Ext) (o : Opts) : ∀ (fuel : Nat) (s s' : St),
+    namePointersLoop fc x o fuel s = .ok s' → FreshExt (foldOf x) (defNames s.doc) (defNames s'.doc) := by
+  intro fuel
+  induction fuel with
+  | zero => intro s s' h; simp [namePointersLoop] at h
+  | succ n ih =>
+    intro s s' h
+    unfold namePointersLoop at h
+    obtain ⟨⟨s1, rp⟩, h1, h⟩ := bind_eq_ok.1 h
+    have hp1 := namePointersPass_fresh fc hf x o s _ h1
+    dsimp only at h
+    split at h
+    · exact hp1.trans (ih _ _ h)
+    · simp only [pure_eq_ok] at h; exact h ▸ hp1
+
+/-- C03, pointer phase: `namePointers` too only appends definitions under fresh names -/
+theorem namePointers_fresh (fc : Facts) (hf : C03.FactsOK fc) (x : Ext) (o : Opts) (s s' : St)
+    (h : namePointers fc x o s = .ok s') :
+    FreshExt (foldOf x) (defNames s.doc) (defNames s'.doc) :=
+  namePointersLoop_fresh fc hf x o _ s s' h
 
 end Proofs.FlattenNames
